@@ -134,6 +134,15 @@ CHECKS = {
                      "near-collision pairs (one leaf or container type changed) must get different digests (sampling).",
                 note="Values without aliased mutable sub-objects; elements of one set / keys of one dict are pairwise "
                      "unequal across types (1, 1.0, True are one element)."),
+    "C20": dict(engine="simtracker (message-order simulation)", cat="exploration", ref="DESIGN.md section 3 (C20)",
+                technique="deterministic simulation of the tracker's command pipe: the real resource_tracker.main() reads "
+                          "a seeded merge of client scripts (with client kills, unbalanced and malformed lines) through a "
+                          "shadowed open(); invariants on the real directory are checked at every readline()",
+                text="At every step: a path with a positive reference count exists, a path whose count returned to zero "
+                     "is gone at the very next step, never-registered decoys exist; after EOF everything still registered "
+                     "is gone, folders after files; main() never raises out of its loop and consumes every line.",
+                note="The unit of interleaving is the line (pipe writes <= 512 bytes are atomic); a killed client simply "
+                     "stops sending; the pipe/EOF model itself is trusted."),
 }
 NOT_APPLICABLE = {
     "C03": "pure function of (object, compressor, protocol, target): no schedule, clock, fault or history for a simulator to own; input enumeration is not this technique (its damaged-file cousin is C14, its stateful reader C13)",
@@ -175,6 +184,8 @@ def main():
         "engines": [
             {"name": "detsched", "path": "sim/detsched.py", "serves_properties": ["C01", "C04", "C09", "C10", "C15", "C16", "C17"],
              "kind_free_text": "deterministic baton-passing scheduler over real parked threads, settrace pre-emption, virtual clock, recorded decision list"},
+            {"name": "simtracker", "path": "props/c20.py", "serves_properties": ["C20"],
+             "kind_free_text": "shadowed open() of resource_tracker: readline() is the simulator step over a seeded merge of client scripts"},
             {"name": "simfs", "path": "sim/simfs.py", "serves_properties": ["C05", "C11", "C18", "C02", "C06", "C12"],
              "kind_free_text": "file-system seam (counting / killing / turn-based wrappers on os.* and open), forked actor processes, simulated clock for the cache code"},
             {"name": "simpool", "path": "sim/simpool.py", "serves_properties": ["C01", "C04", "C09", "C15", "C16"],
